@@ -233,9 +233,13 @@ def runOp (K : Keys) (committedKeys : String) (lite : Bool) (skipM0 : Bool) (ses
     match boardOfRaw (arg 1) with
     | some b => if Spec.ValidPos (absPos b) then f b else "vp=0 " ++ f b
     | none => "bad-raw ## "
+  -- the same with the cached fields (check/pin masks, terminal flag) recomputed from the masks: the model's answers about
+  -- moves must not inherit a wrong cache of the implementation (the caches themselves are compared by `masks`/`status`)
+  let withNormBoard (f : Board → String) : String :=
+    withBoard fun b => f ((b.updatePinsAndChecks).updateTerminalStatus K)
   match op with
   | "zob" => (sess, s!"keys={committedKeys} ## ")
-  | "legal" => (sess, withBoard fun b =>
+  | "legal" => (sess, withNormBoard fun b =>
       let ms := sortStrs ((b.getLegalMoves K).map moveText)
       if skipM0 then s!"moves={commaOr ms} castle={(b.castlingAvailable none).idx} c03=- ## " else
       let p := absPos b
@@ -243,7 +247,7 @@ def runOp (K : Keys) (committedKeys : String) (lite : Bool) (skipM0 : Bool) (ses
       let sc := CR.ofBits (Spec.castleOk p .king) (Spec.castleOk p .queen)
       -- c03: the near-universe self-consistency key of the harness; the model's answer is the constant "-" by theorem C03_iff
       s!"moves={commaOr ms} castle={(b.castlingAvailable none).idx} c03=- ## moves={commaOr sms} castle={sc.idx} c03=-")
-  | "mv" => (sess, withBoard fun b =>
+  | "mv" => (sess, withNormBoard fun b =>
       match parseMoveText (arg 2) with
       | none => "bad-move ## "
       | some m =>
@@ -252,7 +256,7 @@ def runOp (K : Keys) (committedKeys : String) (lite : Bool) (skipM0 : Bool) (ses
         match b.makeMove K m with
         | .ok nb => s!"r=ok {posobs nb} same=1 ## {m0}"
         | .error _ => s!"r=illegal same=1 ## {m0}")
-  | "univ" => (sess, withBoard fun b =>
+  | "univ" => (sess, withNormBoard fun b =>
       let acc := sortStrs ((moveUniverse.filter (b.isLegalMove K)).map moveText)
       let sms := sortStrs ((Spec.legalMoves (absPos b)).map moveText)
       s!"acc={commaOr acc} appdiff=0 panics=0 n={moveUniverse.length} ## acc={commaOr sms}")
@@ -282,7 +286,12 @@ def runOp (K : Keys) (committedKeys : String) (lite : Bool) (skipM0 : Bool) (ses
       let su := match Board.ofBuilder K (Board.setupBuilder pl b.stm (b.rights .white) (b.rights .black) b.ep b.half b.full) with
         | .ok b2 => posobs b2 == posobs b
         | .error _ => false
-      s!"fen={us f} rt={b01 rt} setup={b01 su} ## ")
+      -- For a position satisfying C09's list the round trip through FEN and through the set-up path reproduces the board in
+      -- all 12 fields: theorems C08_fen_roundtrip / C08_setup_roundtrip (for every Valid board).  The model's answer is that
+      -- constant; computing it from the DUMPED board would inherit a wrong cached field (hash, masks, flag) of the
+      -- implementation and agree with it.
+      if Spec.ValidPos (absPos b) then s!"fen={us f} rt=1 setup=1 ## "
+      else s!"fen={us f} rt={b01 rt} setup={b01 su} ## ")
   | "pfen" => (sess,
       match unhexText (arg 1) with
       | none => "bad-hex ## "
@@ -313,7 +322,7 @@ def runOp (K : Keys) (committedKeys : String) (lite : Bool) (skipM0 : Bool) (ses
   | "ppiece" => (sess, match unhexText (arg 1) with
       | none => "bad-hex ## "
       | some t => (match parsePieceType t with | .ok s => s!"r=ok:{s.idx} ## " | .error _ => "r=err ## "))
-  | "sanall" => (sess, withBoard fun b =>
+  | "sanall" => (sess, withNormBoard fun b =>
       let ms := b.getLegalMoves K
       let recs := ms.filterMap fun m => match b.moveProps K m with
         | .ok mp => some (moveText m, String.ofList (sanText m mp), sanFlags mp)
@@ -423,7 +432,13 @@ def main (args : List String) : IO UInt32 := do
     let keysLine := ((← IO.FS.readFile keysPath).trimAscii).toString
     let arr : Array BB := ((keysLine.splitOn ",").map Drv.parseBB).toArray
     let K := Keys.ofArray arr
-    let committed := ",".intercalate ((List.range 785).map fun i => Drv.hexNat (Chess.Gen.zkey i))
+    let committed0 := ",".intercalate ((List.range 785).map fun i => Drv.hexNat (Chess.Gen.zkey i))
+    -- `seed=N`: the SEED constant read from /repo/src/zobrist.rs by the orchestrator; the modelled generator
+    -- (Model/Rng.lean: seed_from_u64 + ChaCha12 + next_u64) is run on it and its table is reported next to the committed one
+    let seedArg : Option Nat := (rest.filterMap fun a => if a.startsWith "seed=" then (a.drop 5).toString.toNat? else none).head?
+    let committed := match seedArg with
+      | some sd => committed0 ++ " rng=" ++ ",".intercalate ((Chess.Rng.tableList sd).map Drv.hexNat)
+      | none => committed0
     let hin ← IO.FS.Handle.mk opsPath .read
     let hout ← IO.FS.Handle.mk outPath .write
     let mut sess : Option Drv.Session := none
